@@ -451,6 +451,8 @@ def r_oneshot(ctx):
             h = unmut(fac[0].d["ret"])
             v = unmut(p.value)
             res = v[2][0] if is_call_to(v, lambda s: s == "core::result::Result::Ok") and v[2] else None
+            if res is None and p.exit == "tail":
+                res = v      # `fallible_op(..).map(|_| buffer)`: the success payload (Result modelled at payload level)
             comp_ok = unmut(fac[0].d["args"][0]) == V("param:compression")
             if "Write" in ctx.fn(fac[0].d["fn"])["ret"]:
                 wr = [e for e in p.events if e.kind == "call" and e.d["fn"].endswith("::write_all") and unmut(e.d["args"][0]) == h]
